@@ -18,7 +18,10 @@ use std::sync::atomic::{AtomicBool, AtomicU64, Ordering};
 use std::sync::{Mutex, Once};
 use std::time::Instant;
 
-pub const VERIF_ROOT: &str = "/verif";
+/// Root of the verification tree (overridable for scratch copies with env VERIF_ROOT).
+pub fn verif_root() -> String {
+    std::env::var("VERIF_ROOT").unwrap_or_else(|_| "/verif".to_string())
+}
 pub const MAX_THREADS: usize = 16;
 
 #[derive(Copy, Clone, PartialEq, Eq, Debug)]
@@ -231,7 +234,7 @@ pub struct KnownFinding {
 }
 
 fn load_known(id: &str) -> Vec<KnownFinding> {
-    let path = format!("{}/known_findings.json", VERIF_ROOT);
+    let path = format!("{}/known_findings.json", verif_root());
     let Ok(text) = std::fs::read_to_string(&path) else {
         return Vec::new();
     };
@@ -418,7 +421,7 @@ impl Ctx {
     }
 
     fn replay_dir(&self) -> PathBuf {
-        PathBuf::from(format!("{}/replays/{}", VERIF_ROOT, self.id))
+        PathBuf::from(format!("{}/replays/{}", verif_root(), self.id))
     }
 
     /// Record a violation: writes the replay file and prints the VIOLATION line.
@@ -891,7 +894,7 @@ impl Ctx {
             "wall_s": (wall * 1000.0).round() / 1000.0,
             "violations": inner.violations.len(),
         });
-        let dir = format!("{}/evidence", VERIF_ROOT);
+        let dir = format!("{}/evidence", verif_root());
         let _ = std::fs::create_dir_all(&dir);
         let path = format!("{}/{}.json", dir, self.id);
         std::fs::write(&path, serde_json::to_string_pretty(&ev).unwrap()).expect("write evidence");
